@@ -136,15 +136,23 @@ def C01_exhaustive(ctx):
 # =============================================================================== C05
 def C05(ctx):
     rng = ctx.rng
+    shared_tables = {}     # one table OBJECT per k, handed to the real code again and again (aliasing)
     for it in range(ctx.n(700, 30000)):
         k = pick_k(ctx)
         fast = rng.random() < 0.4
         g, v = gen.rand_wellformed(rng, k, no_deg3=fast)
         tbl = gen.rand_table(rng, g.k)
+        extra = None
+        if rng.random() < 0.35:
+            if g.k not in shared_tables:
+                t0 = gen.rand_table(rng, g.k, "random")
+                shared_tables[g.k] = (t0, np.array(t0, dtype=int))
+            tbl, obj = shared_tables[g.k]
+            extra = {"tbl": obj}
         bits = gen.rand_bits(rng, 48)
         a, tt, bt = g.token(), tbl_token(tbl), bits_token(bits)
         key = "enc %s %s %d %s %d 0" % (a, tt, v, bt, int(fast))
-        e = ctx.corr(key)
+        e = ctx.corr(key, extra)
         ref = (oracle.ref_encode_fast if fast else oracle.ref_encode_normal)(g, tbl, v, bits)
         r = parse_ok(e)
         if ref is None or r is None or proto.undash(r[0]) != ref:
@@ -196,7 +204,7 @@ def C06(ctx):
                 if c:
                     c = gen.apply_edit(c, gen.rand_edit(rng, c))
             variants.append(("edited", c))
-            variants.append(("foreign", w[:rng.randrange(len(w) + 1)] + rng.choice("NXacgtU*") + w[rng.randrange(len(w) + 1):]))
+            variants.append(("foreign", w[:rng.randrange(len(w) + 1)] + rng.choice("NXacgtU*\u03a9\u00e9") + w[rng.randrange(len(w) + 1):]))
         variants.append(("random", gen.rand_dna(rng, rng.choice([1, 2, 4, 8]))))
         for kind, s in variants:
             walk = g.is_walk(v, s)
@@ -319,6 +327,15 @@ def rand_cfg(rng, k, allow_bad=False):
             lo, hi = hi, lo
         gc = [lo, hi]
     motifs = rng.choice([None, None, ["GC"], ["AAT", "CG"], ["ACGT"], ["T"], ["A", "C"], ["GATC"], ["AC", "TTT"]])
+    if rng.random() < 0.3:
+        # random lists, reverse-complement palindromes included and often first
+        pal = ["AT", "CG", "GATC", "ACGT", "TA", "GC", "AATT"]
+        motifs = [rng.choice(pal)] if rng.random() < 0.5 else []
+        for _ in range(rng.choice([1, 1, 2, 3])):
+            motifs.append(gen.rand_dna(rng, rng.choice([1, 2, 2, 3, 4])))
+        if rng.random() < 0.3:
+            rng.shuffle(motifs)
+        motifs = [m for m in motifs if len(m) <= k] or [gen.rand_dna(rng, min(k, 2))]
     return run, gc, motifs
 
 
@@ -363,7 +380,8 @@ def C02(ctx):
     # sentence 3: constructor acceptance
     for k in range(1, 7 if ctx.thorough else 5):
         for run in [None] + list(range(1, k + 3)):
-            for motifs in (None, ["A" * k], ["A" * (k + 1)], ["AC"], ["ACGTA"]):
+            for motifs in (None, ["A" * k], ["A" * (k + 1)], ["AC"], ["ACGTA"], ["TT", "A" * (k + 1)],
+                           ["A" * (k + 1), "T"], ["C" * k, "G" * (k + 2), "TA"]):
                 st, f = proto.guarded(lambda: mk(k, run, None, motifs))
                 key = "ctor k=%d run=%s motifs=%s" % (k, run, motifs)
                 decidable = (run is None or run < k) and (motifs is None or all(len(m) <= k for m in motifs))
@@ -763,7 +781,7 @@ def C11(ctx):
         n = 4 ** k
         kind = rng.choice(["table", "kw", "local", "empty", "sparse", "sparse"])
         if kind == "sparse":
-            k = rng.choice([3, 4, 4, 5, 5, 6 if ctx.thorough else 5])
+            k = rng.choice([3, 4, 5, 5, 6, 6, 7])
             n = 4 ** k
         if kind == "local":
             run, gc, motifs = rand_cfg(rng, k)
@@ -899,6 +917,31 @@ def C13(ctx):
             exp = proto.show_acc([[succ(v, j, k) for j in range(4)] for v in range(n)])
             if oc != exp:
                 ctx.fail("complete accessor does not hold the j-th successor in column j", k=k)
+    # converted graphs: column j holds -1 or the j-th successor, also for latter maps listing the
+    # successors in another order
+    for it in range(ctx.n(40, 600)):
+        k = rng.choice([1, 2, 3])
+        g = rng.choice([gen.rand_arc_subset, gen.rand_profile_graph])(rng, k)
+        lm = {u: rng.sample([succ(u, j, k) for j in g.live(u)], g.deg(u)) for u in g.vertices()}
+        if not lm:
+            continue
+        o = ctx.corr("l2a %s %d -" % (proto.enc_lmap(lm), k))
+        r = parse_ok(o)
+        rows = parse_acc_rows(r[0]) if r else None
+        if rows is None or any(rows[v][j] not in (-1, succ(v, j, k)) for v in range(4 ** k) for j in range(4)) or \
+                any((rows[v][j] >= 0) != (succ(v, j, k) in lm.get(v, [])) for v in range(4 ** k) for j in range(4)):
+            ctx.fail("converted graph does not hold the j-th successor (or -1) in column j", lmap=proto.enc_lmap(lm)[:300],
+                     observed=o[:300])
+        ctx.case("l2a " + proto.enc_lmap(lm), k >= 2, "converted")
+    if ctx.part == 0:
+        for k in ((6, 8, 9, 10, 11) if ctx.thorough else (6, 8, 10)):
+            n = 4 ** k
+            st, a = proto.guarded(lambda: GZ.get_complete_accessor(k), 240)
+            exp = (np.arange(n)[:, None] * 4 + np.arange(4)[None, :]) % n
+            if st != "ok" or a.shape != (n, 4) or not np.array_equal(a, exp):
+                bad = "raised " + str(a) if st != "ok" else int(np.argwhere(a != exp)[0][0]) if a.shape == (n, 4) else "shape"
+                ctx.fail("complete accessor does not hold the j-th successor in column j", k=k, first_bad_row=bad)
+            ctx.case("complete %d" % k, True, "complete-large")
     for it in range(ctx.n(300, 6000)):
         k = rng.randrange(5, 13 if ctx.thorough else 10)
         v = rng.randrange(4 ** k)
@@ -928,6 +971,14 @@ def C14(ctx):
         o2 = ctx.corr("l2a %s %d -" % (proto.enc_lmap(lm_exp), k))
         if o2 != "ok " + proto.show_acc(rows):
             ctx.fail("accessor -> latter map -> accessor is not the identity", acc=a)
+        if lm_exp:
+            items = list(lm_exp.items())
+            rng.shuffle(items)
+            shuffled = {u: rng.sample(ls, len(ls)) for u, ls in items}
+            o3 = ctx.corr("l2a %s %d -" % (proto.enc_lmap(shuffled), k))
+            if o3 != "ok " + proto.show_acc(rows):
+                ctx.fail("latter map with reordered successors does not convert to the accessor (column = successor mod 4)",
+                         acc=a, lmap=proto.enc_lmap(shuffled)[:300])
         ov = ctx.corr("verts " + a)
         if ov != proto.show_nats(g.vertices()):
             ctx.fail("vertex listing wrong", acc=a, observed=ov)
@@ -1022,6 +1073,22 @@ def C16(ctx):
 
     def bits_case(bits):
         bt = bits_token(bits)
+        if len(bits) <= 200:
+            for container in (list, tuple):
+                arg = container(int(b) for b in bits)
+                keep = container(arg)
+                with BigInts():
+                    r1 = str(int(OP.bit_to_number(arg, is_string=False)))
+                    r2 = OP.bit_to_number(arg, is_string=True)
+                    r3 = str(int(OP.bit_to_number(arg, is_string=False)))
+                if arg != keep:
+                    ctx.fail("bit_to_number modifies its argument", bits=bt, container=container.__name__)
+                if not (r1 == r2 == r3):
+                    ctx.fail("integer-typed and string-typed paths disagree on a reused %s" % container.__name__,
+                             bits=bt, observed=[r1, r2, r3])
+                back = OP.number_to_bit(r2, len(bits))
+                if list(back) != [int(b) for b in bits]:
+                    ctx.fail("bits -> number -> bits is not the identity", bits=bt, observed=str(back)[:200])
         val = int(bt.replace("-", "") or "0", 2) if bits else 0
         o = ctx.corr("b2n " + bt)
         if o != "%d %d" % (val, val):
@@ -1389,6 +1456,41 @@ def C20(ctx):
             "remove_useless": (lambda vb=False: GZ.remove_useless(LM, 2, verbose=vb), "rmu %s 2" % proto.enc_lmap(LM)),
         }
         rng_t = rng.choice([1, 2])
+        calls["encode_path"] = (lambda vb=False: SW.encode(B, A, v, is_faster=fast, shuffles=T_, need_path=True, verbose=vb), None)
+        calls["encode_path_vt"] = (lambda vb=False: SW.encode(B, A, v, is_faster=fast, vt_length=4, need_path=True, verbose=vb), None)
+
+        def pipeline_rmu(vb=False):
+            # results of one call are handed to the documented in-place call; the ORIGINAL arguments
+            # must not change (a result that shares storage with an argument breaks this)
+            lm2 = GZ.remove_useless(LM, 1, verbose=vb)
+            acc2 = GZ.latter_map_to_accessor(lm2, k, verbose=vb)
+            try:
+                SW.remove_nasty_arc(acc2, lm2)
+            except (ValueError, IndexError):
+                pass
+            return "done"
+
+        def pipeline_a2l(vb=False):
+            lm3 = GZ.accessor_to_latter_map(A, verbose=vb)
+            acc3 = GZ.latter_map_to_accessor(lm3, k, verbose=vb)
+            try:
+                SW.remove_nasty_arc(acc3, lm3)
+                SW.remove_nasty_arc(acc3, lm3)
+            except (ValueError, IndexError):
+                pass
+            return "done"
+
+        def pipeline_ccg(vb=False):
+            vs_, acc4 = SW.connect_coding_graph(k, M, rng_t, verbose=vb)
+            lm4 = GZ.accessor_to_latter_map(acc4)
+            try:
+                SW.remove_nasty_arc(acc4, lm4)
+            except (ValueError, IndexError):
+                pass
+            return "done"
+        calls["pipeline_rmu"] = (pipeline_rmu, None)
+        calls["pipeline_a2l"] = (pipeline_a2l, None)
+        calls["pipeline_ccg"] = (pipeline_ccg, None)
         # a second shared latter map, from an arbitrary arc subset (dead-end successors included)
         g2 = gen.rand_arc_subset(rng, k, 0.45)
         shared["lm2"] = {u: [succ(u, j, k) for j in g2.live(u)] for u in g2.vertices()}
